@@ -486,13 +486,16 @@ C02_NoOverdraftUnion ==
     Quiescent => \A n \in Loaded :
         LET C == {v \in Confirmed(book[n]) : V(v).sealer \notin book[n].trusted} IN
         \A w \in Wallet \ {book[n].gen} : In(C, w) >= Out(C, w)
-\* signature of known finding F10: two confirmed spends of the overdrawn wallet that are incomparable
+\* signature of known finding F10: two confirmed spends of the overdrawn wallet that are incomparable.  One of them
+\* (or both) may have been checkpointed since, so ancestry is taken from the parents the vertices declare.
+RECURSIVE DeclAnc(_)
+DeclAnc(v) == LET ps == {V(v).l, V(v).r} \ {NoV} IN ps \cup UNION {DeclAnc(p) : p \in ps}
 C02_SignatureF10 ==
     \A n \in Loaded :
         LET C == {v \in Confirmed(book[n]) : V(v).sealer \notin book[n].trusted} IN
         \A w \in Wallet \ {book[n].gen} : In(C, w) < Out(C, w) =>
-            \E v1, v2 \in {v \in C \cap book[n].live : T(v).iss = w /\ IsSpice(T(v))} :
-                v1 # v2 /\ v1 \notin Anc(book[n], v2) /\ v2 \notin Anc(book[n], v1)
+            \E v1, v2 \in {v \in C : T(v).iss = w /\ IsSpice(T(v))} :
+                v1 # v2 /\ v1 \notin DeclAnc(v2) /\ v2 \notin DeclAnc(v1)
 C02_ModuloF10 == C02_NoOverdraftUnion \/ C02_SignatureF10
 
 
